@@ -164,9 +164,13 @@ ColSum(tab, CA, CB) == [y \in CB |-> SumSet(CA, [x \in CA |-> tab[<<x, y>>]])]
 PureClusters(tab, CA, CB) == \A y \in CB : Cardinality({ x \in CA : tab[<<x, y>>] > 0 }) = 1
 PureClasses(tab, CA, CB)  == \A x \in CA : Cardinality({ y \in CB : tab[<<x, y>>] > 0 }) = 1
 
+(* a2 is an injective relabelling of a: a[i] = a[j] <=> a2[i] = a2[j] for all i, j.  Stated
+   per label value (O(n * #labels), the lengths go up to 1024): every label of a is sent to
+   exactly one label of a2, and no two labels are merged. *)
 SameByRelabelling(a, a2) ==
     /\ Len(a) = Len(a2)
-    /\ \A i, j \in Idx(a) : (a[i] = a[j]) <=> (a2[i] = a2[j])
+    /\ \A x \in Range(a) : Cardinality({ a2[i] : i \in { k \in Idx(a) : a[k] = x } }) = 1
+    /\ Cardinality(Range(a2)) = Cardinality(Range(a))
 
 (* dyadic family *)
 RECURSIVE IsPow2(_)
@@ -221,8 +225,9 @@ HcvClause(a, b, tab, rs, cs, CA, CB, m, sw, rl) ==
     ELSE IF pureC /\ ~(m.cFin /\ Near(m.c, ONE16))
     THEN (IF ~m.cFin /\ Cardinality(CB) = 1 THEN "CompletenessOne@single-cluster:nonfinite" ELSE "CompletenessOne")
     ELSE IF ~(m.hFin /\ m.cFin /\ m.vFin /\ InUnit(m.h) /\ InUnit(m.c) /\ InUnit(m.v)) THEN "UnitInterval"
-    (* conditional entropy positive => strictly below 1; for n <= 256 items and <= 16 classes
-       the deficit H(.|.)/H(.) exceeds 2^-12, far above the two units demanded here *)
+    (* conditional entropy positive => strictly below 1: the deficit H(.|.)/H(.) is at least
+       (2 ln 2 / n) / ln(#labels) -- above 2^-11 for n <= 1024 items and <= 8 labels, and for
+       n <= 200 and <= 16 labels -- far above the two units of 2^-16 demanded here *)
     ELSE IF (~pureK /\ m.h > ONE16 - 2) \/ (~pureC /\ m.c > ONE16 - 2) THEN "BelowOneWhenMixed"
     (* v (h + c) = 2 h c on the S = 12 values; each carries half a unit of error *)
     ELSE IF Abs(m.v12 * (m.h12 + m.c12) - 2 * m.h12 * m.c12) > 2 * (m.h12 + m.c12) + m.v12 + 4 THEN "VMeasure"
